@@ -6,6 +6,7 @@ import (
 	"go/token"
 	"go/types"
 	"os"
+	"strings"
 
 	"golang.org/x/tools/go/types/typeutil"
 
@@ -123,6 +124,45 @@ func (w *World) aliasesFor(fn string, info *types.Info, recv *ast.FieldList, ft 
 			}
 		}
 	}
+	// 2b. same name and same type, definition edited: a snapshot local and a current local that are the only unmatched
+	// ones of their name and type (equally many on both sides: paired in order) are the same local. The function's own
+	// body is tried before the bodies of helpers read in place of their calls.
+	typeOf := func(sig string) string {
+		if i := strings.Index(sig, " | "); i >= 0 {
+			return sig[:i]
+		}
+		return sig
+	}
+	for pass := 0; pass < 2; pass++ {
+		type key struct{ n, t string }
+		sG, cG := map[key][]int{}, map[key][]int{}
+		for si, e := range snap {
+			if !sUsed[si] {
+				k := key{e.N, typeOf(e.S)}
+				sG[k] = append(sG[k], si)
+			}
+		}
+		for ci, l := range cur {
+			if cUsed[ci] {
+				continue
+			}
+			if pass == 0 && body != nil && (l.Pos < body.Pos() || l.Pos > body.End()) {
+				continue
+			}
+			k := key{l.Name, typeOf(l.Sig)}
+			cG[k] = append(cG[k], ci)
+		}
+		for k, ss := range sG {
+			cs := cG[k]
+			if len(cs) != len(ss) {
+				continue
+			}
+			for i := range ss {
+				sUsed[ss[i]], cUsed[cs[i]] = true, true
+				alias[cur[cs[i]].Obj] = flow.LocalAlias{Name: snap[ss[i]].N, Ord: ord[ss[i]]}
+			}
+		}
+	}
 	// 3. the rest: own name, numbered after the ordinals the snapshot knows for that name
 	for ci, l := range cur {
 		if !cUsed[ci] {
@@ -171,6 +211,7 @@ func (w *World) inliner(fn *load.Func, inLit bool) flow.InlineFunc {
 		return nil
 	}
 	info := fn.Pkg.TypesInfo
+	used := map[*ast.FuncDecl]bool{}
 	return func(call *ast.CallExpr, tail bool) *flow.InlineDecision {
 		callee, ok := typeutil.Callee(info, call).(*types.Func)
 		if !ok {
@@ -183,7 +224,13 @@ func (w *World) inliner(fn *load.Func, inLit bool) flow.InlineFunc {
 		if w.knownFunc(src.Name) || src.Decl == fn.Decl {
 			return nil
 		}
-		return &flow.InlineDecision{Decl: src.Decl, Bind: valueParamsModified(info, src.Decl)}
+		decl := src.Decl
+		if used[decl] {
+			// a second splice of the same helper into this graph gets a copy with parameters and locals of its own
+			decl, _ = flow.CloneDecl(decl, info)
+		}
+		used[src.Decl] = true
+		return &flow.InlineDecision{Decl: decl, Orig: src.Decl, Bind: valueParamsModified(info, decl)}
 	}
 }
 
